@@ -272,6 +272,33 @@ func (m *impl) request(h int64) *model.MsgCounterType {
 func (m *impl) exec1(op hx.Zs) []hx.Zs {
 	var ret []hx.Zs
 	switch op[0] {
+	case 8:
+		// Request h; while its datagram is inside the connection writer the response for counter r is
+		// processed (synchronously from the writer: on main only the request lock is held there, which
+		// response processing does not take).  A withheld request writes nothing: no response then.
+		h, r := op[1], op[2]
+		done := false
+		m.w.mu.Lock()
+		m.w.probe = func([]byte) {
+			if done {
+				return
+			}
+			done = true
+			if m.remote != nil {
+				m.inboundResponse(r)
+			} else {
+				m.s.ProcessResponseForMsgCounterReference(util.Ptr(model.MsgCounterType(r)))
+			}
+		}
+		m.w.mu.Unlock()
+		ctr := m.request(h)
+		m.w.mu.Lock()
+		m.w.probe = nil
+		m.w.mu.Unlock()
+		if ctr != nil {
+			ret = append(ret, hx.Zs{1, int64(*ctr)})
+		}
+		return append(m.written(), ret...)
 	case 7:
 		// a repetition of the request that is unanswered, overlapped by other calls: it must be withheld
 		// (no counter, no datagram) wherever it falls among them.  Without the guarantee that it is
@@ -528,11 +555,48 @@ func gen(r *hx.Rng, tier string, i int) []hx.Zs {
 		}
 		h = append(h, op)
 	}
+	// a response processed while another request is being written, then the answered request again: it
+	// must be sent anew (seed C13-l rebuilt the cache from a snapshot taken before the write)
+	respDuring := func() {
+		var pend []int64
+		for c := range unans {
+			pend = append(pend, c)
+		}
+		if len(pend) == 0 {
+			request(int64(r.Intn(4))*nCmd + int64(r.Intn(nCmd)))
+			return
+		}
+		sort.Slice(pend, func(a, b int) bool { return pend[a] < pend[b] })
+		a := pend[r.Intn(len(pend))]
+		ha := unans[a]
+		hb := int64(r.Intn(4))*nCmd + int64(r.Intn(nCmd))
+		for hb == ha {
+			hb = int64(r.Intn(4))*nCmd + int64(r.Intn(nCmd))
+		}
+		withheld := false
+		for _, v := range unans {
+			if v == hb {
+				withheld = true
+			}
+		}
+		h = append(h, hx.Zs{8, hb, a})
+		if !withheld {
+			c := take()
+			delete(unans, a)
+			unans[c] = hb
+			reqCtrs = append(reqCtrs, c)
+			request(ha)
+		}
+	}
 	nDst := int64(4)
 	if i%6 == 5 { // device mode: responses arrive as datagrams through DeviceRemote.HandleSpineMesssage
 		request(discoveryHash)
 		n := r.Range(6, 40)
 		for len(h) < n {
+			if r.Chance(1, 8) {
+				respDuring()
+				continue
+			}
 			switch r.Pick(40, 30, 10, 10, 10) {
 			case 0:
 				if r.Chance(1, 3) {
@@ -578,6 +642,10 @@ func gen(r *hx.Rng, tier string, i int) []hx.Zs {
 	case 0: // mixed
 		n := r.Range(8, 70)
 		for len(h) < n {
+			if r.Chance(1, 8) {
+				respDuring()
+				continue
+			}
 			switch r.Pick(35, 20, 22, 10, 13) {
 			case 0:
 				request(int64(r.Intn(int(nDst)))*nCmd + int64(r.Intn(nCmd)))
@@ -656,7 +724,7 @@ func main() {
 		Property: "C13",
 		Clauses: map[int64]string{1: "counter-duplicated", 2: "counter-not-increasing", 3: "withheld-without-unanswered-identical-request",
 			4: "wrong-datagram-or-return", 5: "lru-get-refreshes-recency", 6: "retrieved-wrong-datagram", 98: "unparseable-observation", 99: "unparseable-operation"},
-		OpNames: map[int64]string{0: "request", 1: "response", 2: "notify", 3: "reply/result/write", 4: "lookup", 5: "burst (overlapping calls)", 7: "repeated request overlapped by other calls", 6: "notify probed while written"},
+		OpNames: map[int64]string{0: "request", 1: "response", 2: "notify", 3: "reply/result/write", 4: "lookup", 5: "burst (overlapping calls)", 7: "repeated request overlapped by other calls", 8: "response processed while a request is being written", 6: "notify probed while written"},
 		NewImpl: newImpl,
 		Gen:     gen,
 		Count:   map[string]int{"quick": 400, "thorough": 20000},
